@@ -168,8 +168,14 @@ func Const(w int, v uint64) *Term {
 	}
 	// large constants are not hash-consed (loops over 2^20 table slots would otherwise pin
 	// millions of terms); equal constants are recognised by value wherever it matters (Same).
+	// A small direct-mapped cache avoids re-allocating the constant a loop is currently working with.
+	slot := &largeConst[(v*0x9E3779B97F4A7C15>>52)&(largeConstN-1)]
+	if t := *slot; t != nil && t.Val == v && t.W == w {
+		return t
+	}
 	t := &Term{K: KConst, W: w, Val: v, ID: nextID}
 	nextID++
+	*slot = t
 	return t
 }
 
@@ -177,6 +183,10 @@ const internConstBelow = 1 << 16
 const smallConstN = 4096
 
 var smallConst [65][]*Term
+
+const largeConstN = 4096
+
+var largeConst [largeConstN]*Term
 
 // Same reports syntactic identity, looking through non-interned constants.
 func Same(a, b *Term) bool {
@@ -1364,6 +1374,9 @@ func ZExt(a *Term, w int) *Term {
 	}
 	if w < a.W {
 		panic("term.ZExt: narrowing")
+	}
+	if a.K == KConst {
+		return Const(w, a.Val)
 	}
 	return Concat(Const(w-a.W, 0), a)
 }
